@@ -175,7 +175,9 @@ def finish(res, world, sc, ops_done, st=None):
                 rec["op"].get("op"),
                 o.get("cls"),
                 D.digest(o.get("value")),
-                o.get("work"),
+                # work units are NOT part of the digest: the iteration order of the space
+                # dicts returned by AEON's percolation (a Rust HashMap) differs from process
+                # to process, so early-exit loops such as is_subspace vary by a few units
                 o.get("points"),
                 o.get("fired"),
             ]
